@@ -302,6 +302,26 @@ def run(ctx):
         ctx.obligation("the missing-entry kernel fails exactly in the calls that execute the lookup, on a fresh instance", False, str([(it.name, it.fresh_error) for it in miss_items]))
     for hist in itertools.product(range(len(miss_items)), repeat=3):
         cases.append(run_history(ctx, miss_items, list(hist) + [0, 1], S, "missing-entry-in-a-branch"))
+    # kernels with NOTHING to do (an empty body; a body whose only branch is never taken) after calls that recorded something, successful or
+    # failed: the answer is the empty path, not what the previous call left behind
+    idle_items = [Item("idle: empty body", "@tweezer\ndef main():\n    return\n", (), S),
+                  Item("idle: branch never taken", "@tweezer\ndef main(n: int):\n    if n > 100:\n        action.set_loc(grid.from_positions([0.0], [0.0]))\n", (1,), S),
+                  fixed[0], fixed[1]] + [it for it in fixed if it.fresh is None][:2]
+    for it in idle_items[:2]:
+        ctx.hist("idle_item_outcome", f"{it.name}: {'path of ' + str(len(it.fresh)) + ' actions' if it.fresh is not None else 'raises ' + str(it.fresh_error)}")
+    for hist in itertools.permutations(range(len(idle_items)), 2):
+        cases.append(run_history(ctx, idle_items, list(hist) + [0, 1, hist[0]], S, "idle-kernels"))
+    # one kernel called with arguments whose Python hashes collide (-1.0 / -2.0, -1 / -2) as shifts, scale factors and grid origins:
+    # whatever an instance remembers about one call must not answer another
+    hsrc = ("@tweezer\ndef main(d: float, k: int):\n    g = grid.from_positions([d, d + 1.0], [0.0, 1.0])\n    action.set_loc(g)\n    action.turn_on(action.ALL, [0])\n"
+            "    action.move(grid.shift(g, d, 0.0))\n    action.move(grid.shift(g, 0.0, d))\n    action.move(grid.shift(grid.shift(g, d, d), d, 1.0))\n"
+            "    action.move(grid.shift(g, 1.0 * k, 2.0))\n")
+    hash_items = [Item(f"shift by {d}, {k}", hsrc, (d, k), S) for d, k in ((-1.0, -1), (-2.0, -2), (-1.0, -2), (-3.0, -1), (2.0, 1))]
+    for it in hash_items:
+        if it.fresh is None:
+            ctx.obligation("the colliding-hash kernels trace on a fresh instance", False, f"{it.name}: {it.fresh_error}")
+    for hist in itertools.permutations(range(len(hash_items)), 3):
+        cases.append(run_history(ctx, hash_items, list(hist) + [hist[0]], S, "colliding-hashes"))
     typed_pool = typed + [fixed[3], fixed[4]]
     for n in (2, 3):
         for hist in itertools.permutations(range(len(typed_pool)), n):
